@@ -1,4 +1,5 @@
 """C04 — private key -> public point -> address exact; invalid keys refused."""
+import hashlib
 from harness.core import hexp, run_driver
 
 N = 0xFFFFFFFFFFFFFFFFFFFFFFFFFFFFFFFEBAAEDCE6AF48A03BBFD25E8CD0364141
@@ -103,6 +104,35 @@ def run(ctx):
             cases.append(('addr %s base58 p2pkh %s' % (net, ku.public_uncompressed_byte.hex()), att(lambda: ku.address()), True))
             cases.append(('addr %s base58 p2pkh %s' % (net, ku.public_uncompressed_byte.hex()),
                           att(lambda: Key(d, network=net).address_uncompressed()), True))
+            # histories that switch between the compressed and the uncompressed form of ONE key object, and between address kinds
+            # under an explicit version prefix: every answer is the address of the form / kind that was asked for, and a plain
+            # address() afterwards is the address of the key as it was created
+            pfx = bytes.fromhex(NETWORK_DEFINITIONS[net]['prefix_address_p2sh'])
+            for start_compressed in (True, False):
+                kh = Key(d, network=net, compressed=start_compressed)
+                own = kh.public_byte.hex()
+                steps = [('c', True), ('c', False), ('plain', None), ('unc', None), ('plain', None), ('hash160', None),
+                         ('pfx', 'p2sh_p2wpkh'), ('pfx', 'p2pkh'), ('pfx', 'p2sh_p2wpkh'), ('plain', None)]
+                rng.shuffle(steps)
+                for what, arg in steps:
+                    ctx.count('form-history:' + what)
+                    if what == 'c':
+                        pubx = (k.public_byte if arg else ku.public_uncompressed_byte).hex()
+                        cases.append(('addr %s base58 p2pkh %s' % (net, pubx), att(lambda: kh.address(compressed=arg, script_type='p2pkh', encoding='base58')), True))
+                    elif what == 'unc':
+                        cases.append(('addr %s base58 p2pkh %s' % (net, ku.public_uncompressed_byte.hex()), att(lambda: kh.address_uncompressed(script_type='p2pkh', encoding='base58')), True))
+                    elif what == 'plain':
+                        cases.append(('addr %s base58 p2pkh %s' % (net, own), att(lambda: kh.address(script_type='p2pkh', encoding='base58')), True))
+                    elif what == 'hash160':
+                        ctx.evals += 1
+                        want_h = hashlib.new('ripemd160', hashlib.sha256(bytes.fromhex(own)).digest()).digest()
+                        if kh.hash160 != want_h or kh.compressed != start_compressed:
+                            ctx.violation('hash160 / compressed flag of a key object changed after address requests', {'op': 'form-history hash160', 'network': net, 'observed': kh.hash160.hex(), 'expected': want_h.hex(),
+                                                                                                                  'compressed': kh.compressed, 'created_compressed': start_compressed})
+                    elif start_compressed:
+                        # (under the P2SH version byte: the nested segwit address, resp. the key hash itself behind that byte)
+                        cases.append(('addr %s base58 %s %s' % (net, 'p2sh_p2wpkh' if arg == 'p2sh_p2wpkh' else 'p2sh', k.public_byte.hex()),
+                                      att(lambda: kh.address(prefix=pfx, script_type=arg, encoding='base58')), True))
             # script hashes and taproot output keys
             script = bytes(rng.randrange(256) for _ in range(rng.randint(1, 80)))
             cases.append(('addr %s bech32 p2wsh %s' % (net, script.hex()),
